@@ -1,13 +1,13 @@
 //! C01 — unfragmented round trip preserves PDU, protocol type and label.
 
 use crate::common::*;
-use crate::engine::{bx, hash_of, GenPart, Property, Stats, Tier};
+use crate::engine::{bx, hash_of, EnumPart, GenPart, Property, Stats, Tier};
 use crate::oracle::refcodec::{self, Parsed};
 use dvb_gse_rust::gse_decap::{DecapStatus, GseDecapMemory};
 use dvb_gse_rust::gse_encap::EncapStatus;
 use proptest::prelude::*;
 use serde::{Deserialize, Serialize};
-use serde_json::json;
+use serde_json::{json, Value};
 
 #[derive(Clone, Debug, PartialEq, Eq, Hash, Serialize, Deserialize)]
 pub struct Item {
@@ -206,12 +206,70 @@ fn check(c: &Case, st: &mut Stats) -> Result<(), String> {
     Ok(())
 }
 
+// ---- enumerated sweeps: one dimension closed at a time ------------------------------------------------
+
+const SWEEP_LENS: u64 = 4100; // 0..=4099: every complete-packet length and a few beyond the limit
+
+/// labkind 0..=2: 6-byte / 3-byte / broadcast; 3: a 6-byte label sent right after a small packet
+/// with the same label (re-use enabled), so that the swept packet goes out with a substituted label
+fn sweep_items(labkind: u64, len: u32, ptype: u16, buf: BufSpec, storage_extra: u32) -> Case {
+    let lab = match labkind {
+        0 => Lab::Six(ALPHA6[0]),
+        1 => Lab::Three(ALPHA3[0]),
+        2 => Lab::Broadcast,
+        _ => Lab::Six(ALPHA6[1]),
+    };
+    let main = Item { pdu: Pdu { len, seed: 3 + len }, lab, ptype, frag_id: (len % 251) as u8, buf, storage_extra, set_reuse: None, failed_call_before: 0 };
+    let mut items = vec![];
+    if labkind == 3 {
+        items.push(Item { pdu: Pdu { len: 3, seed: 2 }, lab, ptype: 0x0800, frag_id: 0, buf: BufSpec::FitPlus(0), storage_extra: 0, set_reuse: None, failed_call_before: 0 });
+    }
+    items.push(main);
+    Case { reuse: ReuseCfg::Enabled, items }
+}
+
+fn len_sweep_case(i: u64) -> Case {
+    let len = (i % SWEEP_LENS) as u32;
+    let labkind = (i / SWEEP_LENS) % 4;
+    let bufkind = i / SWEEP_LENS / 4;
+    // the substituted packet is 6 bytes shorter than the size FitPlus computes from the passed label
+    let adj = if labkind == 3 { -6 } else { 0 };
+    let buf = match bufkind {
+        0 => BufSpec::FitPlus(adj),
+        1 => BufSpec::FitPlus(adj + 1),
+        2 => BufSpec::Abs(4098 + (len % 7) * 9001),
+        _ => BufSpec::FitPlus(adj - 1),
+    };
+    let ptype = 0x0600 + ((len as u64 * 7919) % (0x10000 - 0x0600)) as u16;
+    sweep_items(labkind, len, ptype, buf, len % 3)
+}
+
+fn check_len_sweep(i: u64, st: &mut Stats) -> Result<(), String> {
+    check(&len_sweep_case(i), st)
+}
+
+fn ptype_sweep_case(i: u64) -> Case {
+    let ptype = (0x0600 + i % (0x10000 - 0x0600)) as u16;
+    let labkind = i / (0x10000 - 0x0600);
+    let len = (ptype as u32 * 31) % 41;
+    sweep_items(labkind, len, ptype, if ptype % 2 == 0 { BufSpec::FitPlus(if labkind == 3 { -6 } else { 0 }) } else { BufSpec::Abs(4098) }, ptype as u32 % 2)
+}
+
+fn check_ptype_sweep(i: u64, st: &mut Stats) -> Result<(), String> {
+    check(&ptype_sweep_case(i), st)
+}
+
+fn describe_case(c: Case) -> Value {
+    serde_json::to_value(c).unwrap_or(Value::Null)
+}
+
 pub fn property() -> Property {
     Property {
         id: "C01",
         rule: "streams of 1..6 PDUs (lengths biased to 0, 1 and 4084..=4096; 6-byte/3-byte/broadcast/explicit re-use labels from a small alphabet so substitution happens; protocol types >= 0x0600; buffers exact, +1..8, too small, 4098..70000) through one encapsulator / one decapsulator pair with receiver storage = PDU length + {0, 1, up to 70000}. soundness: every CompletedPkt(n) parses (RefCodec) as one complete packet of n bytes, and decap of exactly those bytes returns the PDU, length, protocol type and the label passed (explicit re-use: the label carried by the preceding start/complete packet, or a re-use error when there is none), consuming n. completeness: when 2+L+len <= 4095 and the buffer holds 4+L+len the call must report a completed packet (L = label as written when Ok, the passed label when Err). non-trivial = stream with a packet >= 4000 bytes, buffer == packet size, storage > PDU, a substituted label, or a buffer > 4097",
         assumptions: &["RefCodec decides what is on the wire; nothing obliges the sender to substitute, so completeness uses the written label"],
-        parts: vec![Box::new(GenPart {
+        parts: vec![
+        Box::new(GenPart {
             name: "streams",
             rule: "see property rule",
             cases: (1_500_000, 40_000_000),
@@ -219,6 +277,24 @@ pub fn property() -> Property {
             strategy,
             check,
             required_classes: &["completed", "substituted", "gse_len>=4000", "buffer==packet", "storage>pdu", "buffer>4097", "explicit-reuse", "explicit-reuse-without-label", "encap-err", "failed-call-before-item", "setting-changed-mid-stream"],
+        }),
+        Box::new(EnumPart {
+            name: "every-length-x-label-x-buffer",
+            rule: "exhaustive: every PDU length 0..=4099 x {6-byte, 3-byte, broadcast, substituted 6-byte label} x buffer {exact, exact+1, 4098.., exact-1}; one payload content and protocol type per length; same oracle as the streams",
+            size: |_| SWEEP_LENS * 4 * 4,
+            exhaustive: |_| true,
+            check: check_len_sweep,
+            describe: |_t, i| describe_case(len_sweep_case(i)),
+            required_classes: &["completed", "substituted", "gse_len>=4000", "buffer==packet", "storage>pdu", "buffer>4097", "fragmented(not C01)"],
+        }),
+        Box::new(EnumPart {
+            name: "every-protocol-type-x-label",
+            rule: "exhaustive: every protocol type 0x0600..=0xFFFF x the same four label cases, PDUs of 0..=40 bytes, exact or 4098-byte buffers; same oracle",
+            size: |_| (0x10000 - 0x0600) * 4,
+            exhaustive: |_| true,
+            check: check_ptype_sweep,
+            describe: |_t, i| describe_case(ptype_sweep_case(i)),
+            required_classes: &["completed", "substituted", "buffer==packet", "buffer>4097"],
         })],
     }
 }
